@@ -53,7 +53,7 @@ type params struct {
 	FaultClasses []string `json:"fault_classes,omitempty"`
 	FaultTimes   int      `json:"fault_times,omitempty"`
 	// enumeration bounds
-	MaxPoints int  `json:"max_points,omitempty"`
+	MaxPoints int `json:"max_points,omitempty"`
 	// GapParked: the first gap upload (started after the crash of the first build) is held inside the write of its
 	// descriptor while the resumed build runs: it commits only after the resumed scan
 	GapParked bool `json:"gap_upload_commits_after_the_resume,omitempty"`
@@ -107,9 +107,9 @@ func gen13(seed int64, tier string) []drv.Case {
 			p.Chunk = uint64([]int{1, 2, 3, 5, 7, 20, 1000}[r.Intn(7)])
 			if fam == "crash" {
 				p.Chunk = uint64([]int{2, 3, 5, 7, 11}[r.Intn(5)]) // several chunks, so that a crash leaves a partial index
-			if i%2 == 0 {
-				p.Chunk = 1 // one chunk per key: a crash may leave 10 or more chunks behind (chunk-10 lists before chunk-2)
-			}
+				if i%2 == 0 {
+					p.Chunk = 1 // one chunk per key: a crash may leave 10 or more chunks behind (chunk-10 lists before chunk-2)
+				}
 				p.Second = i%3 == 2
 			}
 			p.Fast = r.Intn(2) == 0
@@ -141,8 +141,9 @@ func gen13(seed int64, tier string) []drv.Case {
 				}
 				p.GapParked = i%4 == 1
 			case "fault":
-				build := []string{"blob-get", "meta-get-filelist", "meta-get-descriptor", "index-put", "index-delete", "meta-list"}
-				del := []string{"index-list", "index-get", "blob-list", "blob-getattr", "blob-delete"}
+				build := []string{"blob-get", "meta-get-filelist", "meta-get-descriptor", "index-put", "index-delete", "meta-list",
+					"blob-get-cut", "meta-get-filelist-cut", "meta-get-descriptor-cut", "meta-get-descriptor-cut"}
+				del := []string{"index-list", "index-get", "blob-list", "blob-getattr", "blob-delete", "index-get-cut"}
 				p.FaultClasses = []string{build[r.Intn(len(build))], del[r.Intn(len(del))]}
 				if i%4 == 0 {
 					p.FaultClasses = []string{"blob-getattr"} // the blob attribute reads of delete-unused
@@ -312,33 +313,7 @@ func faultScript(classes []string, times int, seed int64) memstore.Fault {
 		return false
 	}
 	return func(c memstore.Call) error {
-		cls := ""
-		isMeta := strings.HasPrefix(c.Store, "meta")
-		isIndex := isMeta && strings.HasPrefix(c.Key, "reverse-index")
-		switch {
-		case c.Store == "blob" && (c.Op == "get" || c.Op == "readat"):
-			cls = "blob-get"
-		case c.Store == "blob" && c.Op == "getattr":
-			cls = "blob-getattr"
-		case c.Store == "blob" && c.Op == "delete":
-			cls = "blob-delete"
-		case c.Store == "blob" && c.Op == "list":
-			cls = "blob-list"
-		case isIndex && c.Op == "list":
-			cls = "index-list"
-		case isIndex && c.Op == "get":
-			cls = "index-get"
-		case isIndex && (c.Op == "put" || c.Op == "putx"):
-			cls = "index-put"
-		case isIndex && c.Op == "delete":
-			cls = "index-delete"
-		case isMeta && c.Op == "list":
-			cls = "meta-list"
-		case isMeta && c.Op == "get" && strings.Contains(c.Key, "bundle-files-"):
-			cls = "meta-get-filelist"
-		case isMeta && c.Op == "get" && strings.HasSuffix(c.Key, "bundle.yaml"):
-			cls = "meta-get-descriptor"
-		}
+		cls := callClass(c)
 		if cls == "" || !has(cls) {
 			return nil
 		}
@@ -354,6 +329,70 @@ func faultScript(classes []string, times int, seed int64) memstore.Fault {
 		}
 		seen[k]++
 		return fmt.Errorf("%w (%s %s %s, failure %d)", memstore.ErrInjected, c.Store, c.Op, short(c.Key), seen[k])
+	}
+}
+
+// callClass names the kind of store call for the fault classes.
+func callClass(c memstore.Call) string {
+	isMeta := strings.HasPrefix(c.Store, "meta")
+	isIndex := isMeta && strings.HasPrefix(c.Key, "reverse-index")
+	switch {
+	case c.Store == "blob" && (c.Op == "get" || c.Op == "readat"):
+		return "blob-get"
+	case c.Store == "blob" && c.Op == "getattr":
+		return "blob-getattr"
+	case c.Store == "blob" && c.Op == "delete":
+		return "blob-delete"
+	case c.Store == "blob" && c.Op == "list":
+		return "blob-list"
+	case isIndex && c.Op == "list":
+		return "index-list"
+	case isIndex && c.Op == "get":
+		return "index-get"
+	case isIndex && (c.Op == "put" || c.Op == "putx"):
+		return "index-put"
+	case isIndex && c.Op == "delete":
+		return "index-delete"
+	case isMeta && c.Op == "list":
+		return "meta-list"
+	case isMeta && c.Op == "get" && strings.Contains(c.Key, "bundle-files-"):
+		return "meta-get-filelist"
+	case isMeta && c.Op == "get" && strings.HasSuffix(c.Key, "bundle.yaml"):
+		return "meta-get-descriptor"
+	}
+	return ""
+}
+
+// cutScript: for fault classes ending in "-cut" the Get succeeds and the transfer of the body is cut (after none, half
+// or all but one of its bytes), the first `times` times a key of that class is read.
+func cutScript(classes []string, times int, seed int64) func(c memstore.Call, size int) (int, error) {
+	seen := map[string]int{}
+	var mu sync.Mutex
+	return func(c memstore.Call, size int) (int, error) {
+		cls := callClass(c)
+		hit := false
+		for _, x := range classes {
+			if cls != "" && x == cls+"-cut" {
+				hit = true
+			}
+		}
+		if !hit {
+			return 0, nil
+		}
+		mu.Lock()
+		defer mu.Unlock()
+		k := c.Store + "|" + c.Key
+		if seen[k] >= times {
+			return 0, nil
+		}
+		seen[k]++
+		h := fnv.New32a()
+		fmt.Fprintf(h, "%d|%s", seed, k)
+		n := []int{0, size / 2, size - 1}[h.Sum32()%3]
+		if n < 0 {
+			n = 0
+		}
+		return n, fmt.Errorf("%w (%s get %s cut after %d of %d bytes)", memstore.ErrInjected, c.Store, short(c.Key), n, size)
 	}
 }
 
@@ -493,6 +532,7 @@ func (s *scen) exec(base *coreh.Env, protected []*bref, pl plan) execInfo {
 	}
 	if pl.family == "fault" {
 		ba.SetFault(faultScript(s.p.FaultClasses, s.p.FaultTimes, s.p.Seed))
+		ba.SetReadFault(cutScript(s.p.FaultClasses, s.p.FaultTimes, s.p.Seed))
 	}
 	if pl.gatePhase == "build" && !pl.parkUpload {
 		bgate = ba.GateWhen(pl.gateSpec.matcher())
@@ -631,6 +671,7 @@ func (s *scen) exec(base *coreh.Env, protected []*bref, pl plan) execInfo {
 	da := memstore.NewActor("deleter")
 	if pl.family == "fault" {
 		da.SetFault(faultScript(s.p.FaultClasses, s.p.FaultTimes, s.p.Seed+1))
+		da.SetReadFault(cutScript(s.p.FaultClasses, s.p.FaultTimes, s.p.Seed+1))
 	}
 	if pl.delCrashK > 0 {
 		da.CrashAt(pl.delCrashK, pl.delCrashA)
